@@ -132,6 +132,10 @@ class DocEngine:
     def gen_init(self, rng):
         if self.cfg["src_family"] == "template":
             init = {"op": "init", "source": "template:" + rng.choice(ds.TEMPLATES, "tpl")}
+            if self.prop in ("C03", "C04") and rng.chance(0.3, "customtpl"):
+                # a document of the user's used as template (Document.new(path)): same types as the stock templates
+                init = {"op": "init", "source": "newfrom:" + rng.choice(["example.odt", "md_style.odt", "frame_image.odp", "background.odp", "simple_table.ods", "chart.odt"], "ctpl"),
+                        "how": rng.choice(["path", "pathobj"], "ctplhow")}
         else:
             samples = [x for x in ds.DOC_SAMPLES if x != "styled_table.ods"] if self.prop == "C15" else ds.DOC_SAMPLES  # (bounded table sizes)
             init = {"op": "init", "source": "sample:" + rng.choice(samples, "sample"),
@@ -191,7 +195,7 @@ class DocEngine:
                 # an I/O error in the middle of a lazy load
                 op["fault"] = {"site": rng.choice(["zip_read", "read_bytes", "zip_open_r"], "rfsite"), "k": 1, "errno": rng.choice(["EIO", "EACCES"], "rferr")}
         elif name == "edit":
-            op["kind"] = rng.choice(["para", "heading", "list", "table", "image", "meta_title", "meta_user", "meta_keyword", "style", "delete_last"] + (["numlist", "numlist", "foreign_named_range", "xml_prolog"] if self.prop == "C15" else []), "ekind")
+            op["kind"] = rng.choice(["para", "heading", "list", "table", "image", "meta_title", "meta_user", "meta_keyword", "style", "delete_last"] + (["numlist", "numlist", "foreign_named_range", "xml_prolog"] if self.prop == "C15" else []) + (["meta_generator"] if self.prop == "C03" else []), "ekind")
             op["n"] = n
             if self.prop == "C15" and self._doc_type() == "spreadsheet" and rng.chance(0.25, "fnr?"):
                 op["kind"] = "foreign_named_range"
@@ -222,7 +226,7 @@ class DocEngine:
             # (Document.del_part refuses every part whose base name is one of the
             # standard XML part names, also inside sub-documents: precondition)
             std_base = {"content.xml", "meta.xml", "styles.xml", "settings.xml", "manifest.xml"}
-            cands = sorted(x for x in st.names() if x.rsplit("/", 1)[-1] not in std_base and x != "mimetype" and x != ds.RDF and not x.endswith("/"))
+            cands = sorted(x for x in st.names() if x.rsplit("/", 1)[-1] not in std_base and x != "mimetype" and (x != ds.RDF or self.prop == "C04") and not x.endswith("/"))
             if self.prop == "C11":
                 # (a picture still referenced by a draw:image changes what the flat export does with that image:
                 # only unreferenced files are deleted here)
@@ -934,6 +938,14 @@ class DocEngine:
             if kind == "meta_keyword":
                 doc.meta.keyword = f"kw{n}"
                 return "meta.xml"
+            if kind == "meta_generator":
+                # the application name chosen by the user (the property or the method: two doors), kept at save
+                if n % 2:
+                    doc.meta.generator = f"SimApp {n}"
+                else:
+                    doc.meta.set_generator(f"SimApp {n}")
+                self.user_generator = f"SimApp {n}"
+                return "meta.xml"
             if kind == "style":
                 doc.insert_style(Style("paragraph", name=f"simstyle{n % 5}", area="text", bold=True))
                 return "styles.xml"
@@ -1377,6 +1389,8 @@ class DocEngine:
         if exc is not None:
             return [Violation(self.prop, "raises", "set_part", self._feats(), type(exc).__name__, str(exc))] if self.prop == "C03" else []
         st.set_part(name, data)
+        if name == "meta.xml":
+            self.user_generator = None  # (the part now is what these bytes say, a generator "read from a file")
         self.n_edits += 1
         return []
 
@@ -1723,6 +1737,7 @@ class DocEngine:
         if exc is not None:
             return []
         self.stats.probe("continued_on_clone")
+        self.user_generator = None  # (what a clone does with the generator is not judged)
         new = ds.PartStore()
         new.mimetype = st.mimetype
         for n in st.names():
@@ -2011,6 +2026,11 @@ class DocEngine:
             exp = {k: v for k, v in art["expected"].items() if v is not None}
             optional = {k for k, v in art["expected"].items() if v is None}
             problems = ds.compare_package(pkg, exp, optional)
+            ug = getattr(self, "user_generator", None)
+            if ug and not problems and "meta.xml" in pkg.parts:
+                g = etree.fromstring(pkg.parts["meta.xml"]).find(".//" + xmlref.q("meta:generator"))
+                if g is None or (g.text or "") != ug:
+                    problems = [("edit-not-in-part", f"meta.xml: the generator set through the API ({ug!r}) is {(g.text if g is not None else None)!r} in the saved file")]
             for kind, det in problems:
                 f2 = feats + ["part:" + det.split(":")[0]] if kind == "part-differs" else (feats + ["empty_dir_entry"] if det.endswith("/") else feats)
                 vs.append(Violation("C03", kind, "save", f2, None, det))
@@ -2072,6 +2092,7 @@ class DocEngine:
                 return [Violation("C03", "reopen-raises", "reopen", self._feats() + ["how:" + how], type(exc).__name__, f"{type(exc).__name__}: {exc}")]
             raise HarnessError(f"cannot reopen artefact: {exc}")
         self.n_reopen += 1
+        self.user_generator = None  # (a generator read from a file is replaced at the next save: documented)
         # facts about the other document stay true; facts saved with the artefact come back with it
         self.flags = (self.flags & {"other_has_styles_xml_automatic_style", "other_has_unsaved_styles"}) | set(art.get("hist_flags", []))
         self._after_open(op)
